@@ -291,11 +291,13 @@ def rule_d(ctx: Ctx) -> None:
             raise AnalysisError(f'missing anchor {ST}.{cname}.raw_decode')
         g = cfg_of(ctx, f)
         rd = None
+        # pattern facets handed over in a list are applied one by one: `for <x> in patterns: <x>(…)`
+        each = {text(lp.target) for lp in ast.walk(f.node) if isinstance(lp, ast.For) and text(lp.iter) == 'patterns' and isinstance(lp.target, ast.Name)}
         for n in g.stmt_nodes():
             for e in n.exprs:
                 for c in calls(e):
                     fn = text(c.func)
-                    if fn not in ('self.patterns', 'patterns', 'self.to_python') or not c.args:
+                    if fn not in ({'self.patterns', 'patterns', 'self.to_python'} | each) or not c.args:
                         continue
                     sites += 1
                     a = c.args[0]
@@ -473,7 +475,7 @@ def rule_g(ctx: Ctx, rule: str = 'C02.g') -> None:
         for p_ in pushes:
             gs = guards(ctx, f, p_)
             ok = any(t.replace(' ', '') in ('context.patternsisNone', 'context.patternsisNoneandisinstance(self.primitive_type,XsdUnion)') and lab == 'T'
-                     or ('context.patterns is None' in t and lab == 'T') for t, lab in gs) and text(p_.ast.value) == 'self.patterns'
+                     or ('context.patterns is None' in t and lab == 'T') for t, lab in gs) and text(p_.ast.value) in ('self.patterns', '[self.patterns]')
             ctx.ob(rule, f'{short}: patterns are pushed only into an empty slot', f.loc(p_.ast), ok, '' if ok else f'guards {sorted(gs)}',
                    key=f'{f.qualname}|patterns-slot|push')
     ctx.floor(rule, 'consumers of the context.patterns slot', n_cons, 2)
@@ -545,4 +547,67 @@ def rule_i(ctx: Ctx) -> None:
                 'family and no option of another family.')
 
 
-RULES = [rule_a, rule_b, rule_c, rule_d, rule_e, rule_f, rule_g, rule_h, rule_i]
+def rule_j(ctx: Ctx) -> None:
+    """A union value belongs to the *first* member type that accepts it, so the order of `member_types` is part of the value space:
+    the types named by the memberTypes attribute come first, in order, then the <simpleType> children (XSD 1.0/1.1 §3.16.2)."""
+    rule = 'C02.j'
+    f = ctx.idx.method('xmlschema.validators.simple_types.XsdUnion', '_parse')
+    ctx.analysed(f.qualname)
+    g = cfg_of(ctx, f)
+    apps = [(n, c) for n, c in call_nodes(g, lambda c: text(c.func) == 'self.member_types.append')]
+    ctx.floor(rule, 'member type registrations in XsdUnion._parse', len(apps), 2)
+    attr, kids = [], []
+    for n, c in apps:
+        gs = ' '.join(t for t, lab in guards(ctx, f, n))
+        if 'memberTypes' in gs:
+            attr.append(n)
+        elif 'self.elem' in gs and 'for ' in gs:
+            kids.append(n)
+    ok = bool(attr) and bool(kids)
+    if ok:
+        # no attribute member can be appended after a child member
+        after_kids = g.reachable([m for k in kids for m, lab in g.succ[k] if lab in 'nTF'], kinds='nTF')
+        ok = not any(a in after_kids for a in attr)
+    ctx.ob(rule, 'XsdUnion._parse: the members named by memberTypes are registered before the <simpleType> children', f.loc(attr[0].ast) if attr else f.loc(), ok,
+           '' if ok else 'a memberTypes member can be appended after a child member: <xs:union memberTypes="xs:int"><xs:simpleType>…xs:string…</xs:simpleType></xs:union> '
+           'decodes "1" with the string member (\'1\') instead of the int member (1)', key='XsdUnion._parse|member-order')
+    ctx.explain('C02.j: CFG reachability between the two kinds of `self.member_types.append` sites of XsdUnion._parse (attribute loop, '
+                'children loop).')
+
+
+def rule_k(ctx: Ctx, rule: str = 'C02.k') -> None:
+    """A value of a restricted type satisfies the pattern facets of *every* step of the derivation.  A restriction of a union hands its
+    patterns to the union through the context slot; when the slot is already taken by an outer restriction, the patterns of this step
+    must still be applied (tested here, or added to what the slot holds)."""
+    n = 0
+    for meth in ('raw_decode', 'raw_encode'):
+        f = ctx.idx.method('xmlschema.validators.simple_types.XsdAtomicRestriction', meth)
+        ctx.analysed(f.qualname)
+        g = cfg_of(ctx, f)
+        for node in g.nodes:
+            if not (node.kind == 'stmt' and isinstance(node.ast, ast.Assign) and text(node.ast.targets[0]) == 'context.patterns' and text(node.ast.value) in ('self.patterns', '[self.patterns]')):
+                continue
+            gs = guards(ctx, f, node)
+            cond = [t for t, lab in gs if lab == 'T' and 'context.patterns is None' in t]
+            if not cond:
+                continue
+            n += 1
+            # is there anything for the other case (slot taken)?
+            other = []
+            for m in g.stmt_nodes():
+                gm = guards(ctx, f, m)
+                if any(('context.patterns is None' in t and lab == 'F') or ('context.patterns is not None' in t and lab == 'T') for t, lab in gm):
+                    if any(text(c.func) == 'self.patterns' for e in m.exprs for c in calls(e)) or \
+                            any(isinstance(c.func, ast.Attribute) and text(c.func.value) == 'context.patterns' and c.func.attr in ('append', 'extend', 'add') for e in m.exprs for c in calls(e)) or \
+                            (isinstance(m.ast, (ast.Assign, ast.AugAssign)) and 'context.patterns' in text(m.ast)):
+                        other.append(m)
+            ok = bool(other)
+            ctx.ob(rule, f'XsdAtomicRestriction.{meth}: the patterns of this step are applied also when an outer restriction of the same union already uses the hand-off slot',
+                   f.loc(node.ast), ok, '' if ok else f'the hand-off is guarded by `{cond[0][:60]}` and nothing is done otherwise: in U <- R1 (pattern [a-c]+) <- R2 (pattern [c-e]+) only the '
+                   'patterns of R2 reach the union; `d` is valid for R2 although its base type R1 rejects it', key=f'XsdAtomicRestriction.{meth}|patterns-of-every-step')
+    ctx.floor(rule, 'pattern hand-offs of union restrictions', n, 2)
+    ctx.explain(f'{rule}: for each `context.patterns = self.patterns` guarded by an empty-slot test there must be a statement for the '
+                'taken-slot case that applies or accumulates the patterns of this step.')
+
+
+RULES = [rule_a, rule_b, rule_c, rule_d, rule_e, rule_f, rule_g, rule_h, rule_i, rule_j, rule_k]
